@@ -5,12 +5,11 @@ import Wayfind.Proofs.Registry6
 
 structure RcInv (r : Router) (L : List LiveT) : Prop where
   single : ∀ lt ∈ L, lt.exps.length ≤ 1 → ∀ e ∈ lt.exps, ∀ i, Node.find r.root e.2 = some i → i.cell = none
-  multi : ∀ lt ∈ L, lt.exps.length > 1 → ∃ k, k < r.next ∧ rcGet r.rc k = lt.exps.length ∧
+  multi : ∀ lt ∈ L, lt.exps.length > 1 → ∃ k, k < r.next ∧ rcGet r.rc k = nkeys lt.exps ∧
     ∀ e ∈ lt.exps, ∀ i, Node.find r.root e.2 = some i → i.cell = some k
   sep : ∀ lt1 ∈ L, ∀ lt2 ∈ L, ∀ e1 ∈ lt1.exps, ∀ e2 ∈ lt2.exps, ∀ i1 i2 k,
     Node.find r.root e1.2 = some i1 → Node.find r.root e2.2 = some i2 → i1.cell = some k → i2.cell = some k →
     lt1.template = lt2.template
-  distinct : ∀ lt ∈ L, DistinctExps lt.exps
 
 theorem insInfo_cell_single (t : Bytes) (d cell : Nat) (x e : Bytes × List Part) : (insInfo t d cell [x] e).cell = none := rfl
 
@@ -22,9 +21,9 @@ theorem insInfo_cell_multi (t : Bytes) (d cell : Nat) (ts : List (Bytes × List 
   · rfl
 
 theorem insertOk_next_rc (r : Router) (t : Bytes) (d : Nat) (ts : List (Bytes × List Part)) (hS : Node.Shp r.root)
-    (hwf : ∀ e ∈ ts, wfParts e.2 = true) (hd : DistinctExps ts) (hfresh : ∀ e ∈ ts, Node.find r.root e.2 = none) :
+    (hwf : ∀ e ∈ ts, wfParts e.2 = true) (hfresh : ∀ e ∈ ts, Node.find r.root e.2 = none) :
     (ts.length ≤ 1 → (r.insertOk t d ts).next ≥ r.next ∧ (r.insertOk t d ts).rc = r.rc ∨ ts = []) ∧
-    (ts.length > 1 → (r.insertOk t d ts).next = r.next + 1 ∧ (r.insertOk t d ts).rc = rcSet r.rc r.next ts.length) := by
+    (ts.length > 1 → (r.insertOk t d ts).next = r.next + 1 ∧ (r.insertOk t d ts).rc = rcSet r.rc r.next (nkeys ts)) := by
   constructor
   · intro hlen
     cases ts with
@@ -36,24 +35,23 @@ theorem insertOk_next_rc (r : Router) (t : Bytes) (d : Nat) (ts : List (Bytes ×
     unfold Router.insertOk
     split
     · simp at hlen
-    · simp only [insertShared_no_drops t d r.next ts r.root 0 hS hwf hd hfresh, Nat.sub_zero, and_self]
+    · simp only [insertShared_count t d r.next ts r.root hS hwf hfresh, and_self]
 
 /-- the empty list of expansions never occurs for a live template that was inserted, but the invariant does not need it -/
 theorem RcInv.empty (b : List (Bytes × Bytes)) : RcInv { registry := b } [] where
   single := by intro lt h; cases h
   multi := by intro lt h; cases h
   sep := by intro lt h; cases h
-  distinct := by intro lt h; cases h
 
 theorem RcInv.insert {r r' : Router} {L : List LiveT} {t : Bytes} {d : Nat} (hreg : Reg r.root L) (h : RcInv r L)
-    (hi : r.insert t d = .ok r') (ts : List (Bytes × List Part)) (hp : parseTemplates t = .ok ts) (hd : DistinctExps ts) :
+    (hi : r.insert t d = .ok r') (ts : List (Bytes × List Part)) (hp : parseTemplates t = .ok ts) :
     RcInv r' (L ++ [⟨t, d, ts⟩]) := by
   obtain ⟨ts', hp', _, hc, rfl⟩ := (Router.insert_ok_iff r r' t d).1 hi
   rw [hp] at hp'; injection hp' with hp'; subst hp'
   have hwf := parse_wf hp
   have hfresh := conflictsOf_nil hc
-  obtain ⟨hS', hfind⟩ := insertOk_find (d := d) hreg.shp hp hd hc
-  obtain ⟨hsmall, hbig⟩ := insertOk_next_rc r t d ts hreg.shp hwf hd hfresh
+  obtain ⟨hS', hfind⟩ := insertOk_find (d := d) hreg.shp hp hc
+  obtain ⟨hsmall, hbig⟩ := insertOk_next_rc r t d ts hreg.shp hwf hfresh
   -- lookups of old keys are unchanged, lookups of new keys give the new values
   have hold : ∀ lt ∈ L, ∀ e ∈ lt.exps, Node.find (r.insertOk t d ts).root e.2 = Node.find r.root e.2 := by
     intro lt hlt e he
@@ -68,9 +66,10 @@ theorem RcInv.insert {r r' : Router} {L : List LiveT} {t : Bytes} {d : Nat} (hre
       simp only at hxe
       rw [hxe, hf] at this; cases this
     rw [this]
-  have hnew : ∀ e ∈ ts, Node.find (r.insertOk t d ts).root e.2 = some (insInfo t d r.next ts e) := by
+  have hnew : ∀ e ∈ ts, ∃ e', Node.find (r.insertOk t d ts).root e.2 = some (insInfo t d r.next ts e') := by
     intro e he
-    rw [hfind e.2 (hwf e he), lookupIns_new_key hd e he]
+    obtain ⟨e', _, hlk⟩ := lookupIns_new_key (t := t) (d := d) (cell := r.next) e he
+    exact ⟨e', by rw [hfind e.2 (hwf e he), hlk]⟩
   have hnext : r.next ≤ (r.insertOk t d ts).next := by
     by_cases hl : ts.length > 1
     · rw [(hbig hl).1]; omega
@@ -84,13 +83,14 @@ theorem RcInv.insert {r r' : Router} {L : List LiveT} {t : Bytes} {d : Nat} (hre
     · rcases hsmall (by omega) with h1 | h1
       · rw [h1.2]
       · subst h1; simp [Router.insertOk, insertShared, rcGet_rcSet_other _ _ _ _ (Nat.ne_of_lt hk)]
-  refine ⟨?_, ?_, ?_, ?_⟩
+  refine ⟨?_, ?_, ?_⟩
   · intro lt hlt hlen e he i hf
     rcases List.mem_append.1 hlt with hlt | hlt
     · rw [hold lt hlt e he] at hf; exact h.single lt hlt hlen e he i hf
     · simp only [List.mem_singleton] at hlt; subst hlt
       simp only at hlen he
-      rw [hnew e he] at hf; injection hf with hf; subst hf
+      obtain ⟨e', hne'⟩ := hnew e he
+      rw [hne'] at hf; injection hf with hf; subst hf
       cases ts with
       | nil => cases he
       | cons a rest => cases rest with
@@ -107,8 +107,9 @@ theorem RcInv.insert {r r' : Router} {L : List LiveT} {t : Bytes} {d : Nat} (hre
       refine ⟨r.next, by rw [(hbig hlen).1]; omega, by rw [(hbig hlen).2, rcGet_rcSet_same], ?_⟩
       intro e he i hf
       simp only at he
-      rw [hnew e he] at hf; injection hf with hf; subst hf
-      exact insInfo_cell_multi t d r.next ts e hlen
+      obtain ⟨e', hne'⟩ := hnew e he
+      rw [hne'] at hf; injection hf with hf; subst hf
+      exact insInfo_cell_multi t d r.next ts e' hlen
   · intro lt1 hlt1 lt2 hlt2 e1 he1 e2 he2 i1 i2 k hf1 hf2 hc1 hc2
     -- cells of old templates are below `r.next`, the new template's cell is `r.next`
     have oldcell : ∀ lt ∈ L, ∀ e ∈ lt.exps, ∀ i k, Node.find (r.insertOk t d ts).root e.2 = some i → i.cell = some k → k < r.next := by
@@ -122,7 +123,8 @@ theorem RcInv.insert {r r' : Router} {L : List LiveT} {t : Bytes} {d : Nat} (hre
         rw [hc] at this; cases this
     have newcell : ∀ e ∈ ts, ∀ i k, Node.find (r.insertOk t d ts).root e.2 = some i → i.cell = some k → k = r.next := by
       intro e he i k hf hc
-      rw [hnew e he] at hf; injection hf with hf; subst hf
+      obtain ⟨e', hne'⟩ := hnew e he
+      rw [hne'] at hf; injection hf with hf; subst hf
       unfold insInfo at hc
       split at hc
       · cases hc
@@ -139,7 +141,3 @@ theorem RcInv.insert {r r' : Router} {L : List LiveT} {t : Bytes} {d : Nat} (hre
       have b := newcell e1 he1 i1 k hf1 hc1
       omega
     · simp only [List.mem_singleton] at h1 h2; subst h1 h2; rfl
-  · intro lt hlt
-    rcases List.mem_append.1 hlt with hlt | hlt
-    · exact h.distinct lt hlt
-    · simp only [List.mem_singleton] at hlt; subst hlt; exact hd
